@@ -349,6 +349,9 @@ def run(ctx):
         preds = common.callable_args_conditions(ctx, f, r"TraitImpl::<'a>::type_params_matching$", (1, 2)) or []
         ok = len(preds) == 2 and all(p == [{"elem.skip=False"}] for p in preds)
         ctx.ob("C20.S.bounds-cover-trait-uses", f.key, "only skipped fields / variants are left out", ok, "filters keep an element under %s" % preds)
+    # `Default` is demanded of a field type only where the documentation says so (skipped fields)
+    from .C01 import default_synthesis_rules
+    default_synthesis_rules(ctx, "C20.S")
     # ---------------------------------------------------------------- filled ⇒ consumed (F16)
     from .C16 import magic_table
     consumers = {
